@@ -61,6 +61,9 @@ type Spec[P any] struct {
 	// Exclude, when set, is consulted before a generated case runs: cases for which it returns a non-empty
 	// known-finding signature (open in known_findings.json) are withheld by construction and counted.
 	Exclude func(p P) string
+	// NoShrink: for schedule-dependent checks. The first failure is recorded (replay = the generated case) and
+	// generation stops; rapid's shrinker, which needs deterministic failures, is not used.
+	NoShrink bool
 }
 
 type subStats struct {
@@ -365,7 +368,16 @@ func Check[P any](t *testing.T, s Spec[P]) {
 		flush()
 		mu.Unlock()
 	}()
+	stopped := false
+	defer func() {
+		if s.NoShrink && last != nil {
+			t.Errorf("VERIF-FAIL property=%s check=%s sig=%s: %s", s.Prop, s.Name, last.Sig, trunc(last.Msg, 2000))
+		}
+	}()
 	rapid.Check(t, func(rt *rapid.T) {
+		if stopped {
+			return
+		}
 		p := s.Gen(rt)
 		if s.Exclude != nil {
 			if sig := s.Exclude(p); sig != "" && IsKnown(s.Prop, sig) {
@@ -392,6 +404,10 @@ func Check[P any](t *testing.T, s Spec[P]) {
 		mu.Unlock()
 		path := saveReplay(s.Prop, s.Name, f, cj)
 		last = &failRec{Prop: s.Prop, Name: s.Name, Sig: f.Sig, Msg: trunc(f.Msg, 4000), Replay: path}
+		if s.NoShrink {
+			stopped = true
+			return
+		}
 		rt.Fatalf("VERIF-FAIL property=%s check=%s sig=%s: %s", s.Prop, s.Name, f.Sig, trunc(f.Msg, 2000))
 	})
 }
